@@ -54,6 +54,12 @@ SENSITIVITY = {
         ("StrFormat", "strict1", "SoundnessStrict"),
         ("StrFields", "bug1", "Soundness"),  # the same seeded bug must be rejected by the field slices
         ("StrFields", "strict1", "SoundnessStrict"),
+        # seeded model bug: field names classified by int() (spaces, sign, "_" accepted) instead of isdigit():
+        # "{-1}".format() raises KeyError but the bugged model is silent; "{-1.real}".format(**{"-1": 1}) is fine
+        # but the bugged model reports an index out of range
+        ("StrFields", "bugint1", "Soundness"),
+        ("StrFields", "bugint2", "Precision"),
+        ("StrFields", "strict2", "NoCrashStrict"),  # the int("\u00b2") internal error is real
     ],
 }
 
@@ -201,19 +207,23 @@ def selftest_binding(check: core.Check) -> None:
             raise core.MachineryError(f"dev self-test: probe {o['expr']} is not a reported failure")
         a = copy.deepcopy(o)
         a["tid"], a["pz"]["first"] = 1, "none"
+        b = copy.deepcopy(o)  # pretend the checker crashed on a template outside the known crash classes
+        b["tid"], b["pz"]["crash"], b["pz"]["rtype"] = 3, True, "any"
         o["tid"], kn["tid"] = 0, 2
-        verdicts, _ = core.adjudicate(mod + "Trace", mod + "Trace.cfg", [o, a, kn])
-        got = {k: verdicts.get(k, []) for k in range(3)}
+        verdicts, _ = core.adjudicate(mod + "Trace", mod + "Trace.cfg", [o, a, kn, b])
+        got = {k: verdicts.get(k, []) for k in range(4)}
         ok = (
             got[0] == []
             and any(v.startswith("viol:ReportsWhenRaises") for v in got[1])
             and not any(v.startswith("dev:") for v in got[1])
             and got[2] == [known[which][1]]
+            and "viol:Exception" in got[3]
+            and not any(v.startswith("dev:") for v in got[3])
         )
         if not ok:
             raise core.MachineryError(f"dev-class self-test failed for {mod}: {got}")
         report.append(f"{mod}: {o['expr']} first:=none (shape of a known class, not what the model predicts) -> {got[1]}; "
-                      f"{kn['expr']} untouched -> {got[2]}")
+                      f"{kn['expr']} untouched -> {got[2]}; crash:=True -> {got[3]}")
     check.cov["binding_selftest"] = report
 
 
@@ -273,6 +283,12 @@ def run(check: core.Check) -> None:
             seed=check.seed + (13 if which == "percent" else 14))
         if not quick:
             job(f"{which}:fields22", fmod + "Emit", f"{fmod}.two2.cfg", workers=8)
+    # lexical edge forms of a field name (00, ' 0', '0 ', ' 0 ', +0, -0, -1, 0_0, 1_0, 0x0, superscript two,
+    # Arabic-Indic zero, 'a b', 20 nines; alone / with .0 / .real, and followed by {0} / {}) x positional
+    # arguments x keyword arguments spelled exactly like the field name (through a ** dict literal); and the
+    # same dimension character by character (token level)
+    job("format:fieldnames", "StrFieldsEmit", "StrFields.names.cfg", workers=4)
+    job("format:names", "StrFormatEmit", "StrFormat.names.cfg", workers=4)
     # keyed specifiers x dicts of up to two entries (both spellings of a key, second key, keyed + unkeyed)
     job("percent:fieldkeys", "PercentFieldsEmit", "PercentFields.keys2.cfg", workers=2)
     # every conversion character x every length modifier x every argument class
@@ -353,6 +369,12 @@ def run(check: core.Check) -> None:
         keys, ex_all = _sample(rnd, keys, 30000)
         exhaustive = exhaustive and ex_all
         judge(check, "percent", keys, "tlc-exhaustive:" + jobs["percent:keys"]["cfg"])
+    names = core.emitted_json(results["format:names"])
+    results["format:names"].stdout = ""
+    model_cases["format-name-characters"] = len(names)
+    names, ex_all = _sample(rnd, names, 5000 if quick else 40000)
+    exhaustive = exhaustive and ex_all
+    judge(check, "format", names, "tlc-exhaustive:" + jobs["format:names"]["cfg"])
     phase("replay-token-level")
     # 4b. the specifier-/field-structured slices: all cases of the exhaustive slices in one replay per half
     for which in MODULE:
@@ -360,7 +382,8 @@ def run(check: core.Check) -> None:
         cases: list[dict] = []
         labels: list[str] = []
         for src, lim in [(f"{which}:fields", 20000), (f"{which}:fields2", 20000)] + (
-            [("percent:fieldkeys", 20000), ("percent:fieldconvs", 20000)] if which == "percent" else []
+            [("percent:fieldkeys", 20000), ("percent:fieldconvs", 20000)] if which == "percent"
+            else [("format:fieldnames", 20000)]
         ) + (
             [] if quick else [(f"{which}:fields22", 40000)] + ([("format:fieldsfull", 40000)] if which == "format" else [])
         ):
@@ -412,7 +435,10 @@ def run(check: core.Check) -> None:
         "required, required+1) x keyword subsets.  quick: (b) with one item over representative menus "
         "(PercentFields/StrFields.quick.cfg: both keys x {no flag, -} x 3 widths x 4 precisions x {d,x,c,s,%}), two "
         "items over small menus (.two.cfg), every conversion x every length modifier (PercentFields.convs.cfg) and "
-        "keyed specifiers x dicts of <= 2 entries (PercentFields.keys2.cfg), every case replayed; "
+        "keyed specifiers x dicts of <= 2 entries (PercentFields.keys2.cfg), and the lexical edge forms of a "
+        "str.format field name (StrFields.names.cfg: 00, 01, ' 0', '0 ', ' 0 ', +0, -0, -1, 0_0, 1_0, 0x0, U+00B2, "
+        "U+0660, 'a b', 20 nines x {plain, .0, .real} x following {0}/{} x positional x same-spelled ** keywords), "
+        "every case replayed; StrFormat.names.cfg: the same dimension over a character alphabet, 3 tokens, sampled; "
         "thorough adds one item over the COMPLETE field menus (PercentFields.full.cfg: 3 keys x 16 flag sets x 3 "
         "widths x 4 precisions x 4 length modifiers x 19 conversions, model-checked; StrFields.full.cfg replayed) "
         "and two items over medium menus (.two2.cfg).  Replayed exhaustively up to the replay limit, seeded uniform "
